@@ -285,10 +285,26 @@ def run_function_replay(R):
         except Exception:       # noqa
             ns['__old_%d' % i] = None
     argnames = R['argnames']
-    args = [inputs[a] for a in argnames if a in inputs]
+    # a parameter declared as **name receives its dict as keyword arguments, one declared as *name as positionals
+    import inspect
+    kwname = starname = None
+    try:
+        for pn, pp in inspect.signature(fn).parameters.items():
+            if pp.kind == pp.VAR_KEYWORD:
+                kwname = pn
+            elif pp.kind == pp.VAR_POSITIONAL:
+                starname = pn
+    except (TypeError, ValueError):
+        pass
+    args = [inputs[a] for a in argnames if a in inputs and a not in (kwname, starname)]
+    if starname in inputs:
+        args += list(inputs[starname])
+    kw = dict(inputs.get('__kwargs__', {}))
+    if kwname in inputs and isinstance(inputs[kwname], dict):
+        kw.update(inputs[kwname])
     result, raised, exc = None, False, None
     try:
-        result = fn(*args, **{k: v for k, v in inputs.get('__kwargs__', {}).items()})
+        result = fn(*args, **kw)
     except BaseException as e:     # noqa
         raised, exc = True, e
     ns.update(result=result, raised=raised, exc=exc)
